@@ -227,6 +227,9 @@ Definition unrow (r : res) : res := match r with RRow [b] => RBytes b | _ => r e
 Definition unraise (o : op) (r : res) : res :=
   match o, r with Read _ _, RErr EValue => RNone | _, _ => r end.
 
+Definition view_raw (_ : op) (r : res) : res := r.
+Definition view_sq (_ : op) (r : res) : res := unrow r.
+
 (* calls paired with the (viewed) results *)
 Definition history (view : op -> res -> res) (ops : list op) (rs : list res) : list (op * res) :=
   map (fun e => (fst e, view (fst e) (snd e))) (combine ops rs).
@@ -238,6 +241,28 @@ Definition apply_ack (s : smap) (e : op * res) : smap :=
   | (Update t b i, RCount _) => sp_set (t, i) b s
   | (Delete t i, _) => sp_del (t, i) s
   | _ => s
+  end.
+
+(* the tag a call names (read_all() and Reopen name none) *)
+Definition op_tag (o : op) : option tag :=
+  match o with
+  | Create t _ | Update t _ _ | Delete t _ | Read t _ => Some t
+  | ReadAll ot => ot
+  | Reopen => None
+  end.
+(* calls that may change or remove the value under key k (a create cannot: it takes an unused id) *)
+Definition touches (k : key) (o : op) : bool :=
+  match o with
+  | Update t _ i | Delete t i => key_eqb (t, i) k
+  | _ => false
+  end.
+Definition is_delete (o : op) : bool := match o with Delete _ _ => true | _ => false end.
+(* the ids handed out by the creates of a history *)
+Fixpoint created_ids (ops : list op) (rs : list res) : list N :=
+  match ops, rs with
+  | Create _ _ :: ops', RId i :: rs' => i :: created_ids ops' rs'
+  | _ :: ops', _ :: rs' => created_ids ops' rs'
+  | _, _ => []
   end.
 
 (* interleavings of the call lists of several threads; each call is one atomic step *)
